@@ -403,6 +403,11 @@ struct Engine
         sim::clock_set(epoch_for(P.start_ms_of_day), 1000 * sim::SEC);
         sim::clock_tick_always(true);
         sim_start = sim::mono_now();
+        if (P.obstacle > 0) {
+            // a directory that occupies the name of a future rotated file: the rename to it fails as a whole
+            std::string n = stem + ".2026-01-01." + std::to_string(P.obstacle) + (suffix.empty() ? "" : "." + suffix);
+            mkdir((logdir_path + "/" + n).c_str(), 0700);
+        }
         name_sibling();
         for (int idx : P.foreign) {
             std::string n = foreign_name(idx);
@@ -534,6 +539,8 @@ struct Engine
                     before.pop_back();
                 cur_X_expected = rec_stream(before);
                 cur_X_mtime = logdir::mtime_ns(logdir_path + "/" + name);
+                if (is("C06") && P.N == 1 && !fault_mode)
+                    fail("rotated-with-n1", "a rotated file (" + name + ") was produced although the file-count limit is 1");
             }
         }
         if ((is("C08") || is("C10")) && !cur_X.empty() && !fault_mode)
@@ -621,7 +628,7 @@ struct Engine
                 fail("rotated-file-vanished",
                      "rotated file " + s.plain_name + " disappeared although no retention limit is in force (N="
                              + std::to_string(P.N) + ")");
-            if (is("C06")) {
+            if (is("C06") || is("C05")) {
                 if (P.N <= 0)
                     fail("deleted-without-limit", "rotated file " + s.plain_name + " was deleted with N=" + std::to_string(P.N));
                 for (auto &o : segs)
@@ -654,7 +661,7 @@ struct Engine
             if (is("C05") && !retention)
                 fail("rotated-file-vanished",
                      "the file just rotated to " + cur_X + " was deleted although no retention limit is in force");
-            if (is("C06")) {
+            if (is("C06") || is("C05")) {
                 if (P.N <= 0)
                     fail("deleted-without-limit", "the file just rotated to " + cur_X + " was deleted with N=" + std::to_string(P.N));
                 for (auto &o : segs)
@@ -797,6 +804,14 @@ struct Engine
                              + std::to_string(s.recs.size()) + " records; limit is " + std::to_string(P.L));
             segs.push_back(s);
         }
+        // a rotated name present both plain and compressed after a completed operation: a reader that
+        // decompresses the compressed files reads those records twice
+        if ((is("C05") || is("C08")) && !fault_mode)
+            for (auto &kv : rot)
+                if (kv.second.both)
+                    fail("rotated-file-duplicated",
+                         "rotated file " + kv.first + " exists both uncompressed and as " + kv.first
+                                 + ".gz after the operation completed: its records would be read twice");
         // known segments: content must not change (incl. after compression)
         for (auto &s : segs) {
             if (!s.present || s.created_op == cur_op)
@@ -934,7 +949,11 @@ struct Engine
         if (sink)
             sink->send(lmsg);
         if (!device_open()) {
-            // the device is closed: the record was refused, it never reached the file
+            // the device is closed: the record was refused, it never reached the file.  After an
+            // injected failure that is a legitimate outcome (the file could not be reopened); in a
+            // fault-free history nothing entitles the sink to drop a record
+            if (!fault_mode && (is("C05") || is("C07") || is("C09")))
+                fail("record-refused", "record r" + std::to_string(r.id) + " was dropped: the sink's file is closed although no failure was injected");
             pending.pop_back();
             refused++;
         }
@@ -1288,7 +1307,10 @@ void eval_crashes(Engine &e)
 
 const std::vector<int> &errno_menu(int call)
 {
-    static const std::vector<int> rn2 = { EACCES, EPERM, EEXIST, ENOSPC, EIO, EXDEV, EROFS, EBUSY, EINVAL };
+    // the last entry: the rename fails as a whole - Qt's fall-backs (link, copy) cannot create the
+    // destination either
+    static const std::vector<int> rn2 = { EACCES, EPERM, EEXIST, ENOSPC, EIO, EXDEV, EROFS, EBUSY, EINVAL,
+                                          EACCES | sim::FS_ERR_STICKY };
     static const std::vector<int> rn = { EACCES, EXDEV, EIO };
     static const std::vector<int> ln = { EPERM, EACCES, EEXIST, EMLINK, EXDEV };
     static const std::vector<int> ul = { EACCES, EPERM, EBUSY, EIO, EROFS };
@@ -1387,8 +1409,8 @@ Result run_history(const FPlan &plan)
                     if (plan.ops[i].fault_call >= 0) {
                         const FOp &o = plan.ops[i];
                         fr.msg = std::string("with ") + sim::fs_call_name(o.fault_call) + " #" + std::to_string(o.fault_nth)
-                                + " of operation " + std::to_string(i) + " failing with errno " + std::to_string(o.fault_errno)
-                                + " (" + strerror(o.fault_errno) + "): " + fr.msg;
+                                + " of operation " + std::to_string(i) + " failing with errno " + std::to_string(o.fault_errno & 0xffff)
+                                + " (" + strerror(o.fault_errno & 0xffff) + "): " + fr.msg;
                         break;
                     }
                 fr.cls = "io-failure-loses-records";
@@ -1424,8 +1446,9 @@ Result run_history(const FPlan &plan)
                 fr.fault_nth = s[2];
                 fr.fault_errno = err;
                 fr.msg = std::string("with ") + sim::fs_call_name(s[1]) + " #" + std::to_string(s[2])
-                        + " of operation " + std::to_string(s[0]) + " failing with errno " + std::to_string(err) + " ("
-                        + strerror(err) + "): " + fr.msg;
+                        + " of operation " + std::to_string(s[0]) + " failing with errno " + std::to_string(err & 0xffff) + " ("
+                        + strerror(err & 0xffff) + ((err & sim::FS_ERR_STICKY) ? ", and every fall-back that would create the destination" : "")
+                        + "): " + fr.msg;
                 fr.cls = "io-failure-loses-records";
                 fr.signature = "io-failure-loses-records";
                 fr.crash_points = r.crash_points;
